@@ -36,7 +36,8 @@ Proof.
       * intros i. rewrite used_spans_init_normal. cbn [In]. split; [tauto|].
         intros (Hi & c & [E|[]]). inversion E. lia.
       * intros cp [].
-      * intros _ i c. rewrite used_spans_init_normal. intros [E|[]]. inversion E. unfold MI_MAX_SLICE_OFFSET_COUNT. lia.
+      * split; [|intros _ cp []].
+        intros _ i c. rewrite used_spans_init_normal. intros [E|[]]. inversion E. unfold MI_MAX_SLICE_OFFSET_COUNT. lia.
     + intros x Hx. destruct (B5 x Hx) as (Hne & Hd). split; [assumption|].
       rewrite Esz. cbn [cs cs_base]. unfold MI_SLICES_PER_SEGMENT, MI_SEGMENT_SLICE_SIZE, MI_SEGMENT_SIZE in *. lia.
   - intros x. unfold live_blocks. cbn [flat_map]. unfold seg_blocks at 1. cbn [cs_pages flat_map app]. reflexivity.
@@ -92,7 +93,7 @@ Proof.
   intros H; inversion H; subst m' idx. clear H.
   pose proof Ef as Ef'. apply (find_seg_In _ _ _ Hm) in Ef as (Hcs & Eb). subst base.
   pose proof (seg_ok_In _ _ Hm Hcs) as Hs.
-  pose proof Hs as (A1 & A2 & A3 & A4 & Hinv & Hndp & Hpg & Hpok & Hc256).
+  pose proof Hs as (A1 & A2 & A3 & A4 & Hinv & Hndp & Hpg & Hpok & Hc256 & Hhuge1).
   destruct (cs_st cs) as [sg qs] eqn:Est. cbn [fst] in *.
   destruct (allocate_fresh sg qs _ _ _ _ Hinv Ea) as (sps & c & Hsp & Hin & Hfree & Hkc & Hdisj & Hus & Hfr & Hu & Hinv1).
   set (k := if slices_needed bs =? 0 then 1 else slices_needed bs) in *.
@@ -123,7 +124,7 @@ Proof.
     change (seg_size {| cs_base := cs_base cs; cs_st := st2; cs_pages := cp :: cs_pages cs |}) with (seg_size cs').
     rewrite Esz.
     split; [assumption|]. split; [assumption|]. split; [assumption|]. split; [assumption|].
-    split; [assumption|]. split; [|split; [|split]].
+    split; [assumption|]. split; [|split; [|split; [|split]]].
     - rewrite Ecpi. constructor; [|assumption]. intros Hi. apply Hpg in Hi as (_ & ci & Hi).
       destruct (Hold _ _ Hi) as (Hne & _). congruence.
     - intros i. rewrite Ecpi. cbn [In]. split.
@@ -136,7 +137,8 @@ Proof.
       destruct (Hold _ _ Hi) as (_ & Eg). rewrite Eg. apply Hpok. assumption.
     - intros _ i ci Hi. apply Hus2 in Hi. apply Hus in Hi as [E|Hi]; [|apply (Hc256 Ek _ _ Hi)].
       inversion E; subst. pose proof (slices_needed_le bs Hbsl) as Hle.
-      unfold k. destruct (slices_needed bs =? 0); [unfold MI_MAX_SLICE_OFFSET_COUNT; lia|assumption]. }
+      unfold k. destruct (slices_needed bs =? 0); [unfold MI_MAX_SLICE_OFFSET_COUNT; lia|assumption].
+    - intros Hkh. rewrite Hk2, Hk1 in Hkh. discriminate. }
   assert (Esb : forall x, In x (seg_blocks cs') <-> In x (seg_blocks cs)).
   { intros x. rewrite !In_seg_blocks. unfold cs' at 1; cbn [set_pages cs_pages]. split.
     - intros (cp2 & [<-|Hcp2] & Hx).
@@ -181,6 +183,7 @@ Proof.
   set (st2 := set_block_size st 1 psize).
   destruct (base_ok m base (seg_slices (fst (cs_st (mkCSeg base st2 []))))) eqn:Eb; [|discriminate].
   destruct (init_cpage (mkCSeg base st2 []) 1 psize) as [cp|] eqn:Ecp; [|discriminate].
+  destruct (reserved (cp_page cp) =? 1) eqn:Er1; [|discriminate]. apply N.eqb_eq in Er1.
   intros H; inversion H; subst m' idx. clear H.
   destruct (base_ok_spec _ _ _ Eb) as (B1 & B2 & B3 & B4 & B5).
   destruct (init_cpage_some _ _ _ _ Ecp) as (Hps0 & _ & _).
@@ -196,13 +199,14 @@ Proof.
   assert (Hs' : seg_ok cs').
   { unfold seg_ok. cbn [cs' set_pages cs_base cs_st cs_pages map].
     split; [assumption|]. split; [assumption|]. split; [assumption|]. split; [exact B4|].
-    split; [assumption|]. split; [constructor; [intros []|constructor]|]. split; [|split].
+    split; [assumption|]. split; [constructor; [intros []|constructor]|]. split; [|split; [|split]].
     - intros i. rewrite Ecpi. cbn [In]. split.
       + intros [<-|[]]. split; [lia|]. exists (ss - 1). apply Hus2. assumption.
       + intros (Hi0 & ci & Hi). apply Hus2 in Hi. apply (In_used_spans _ _ _ _ _ _ Hinv) in Hi as (Hi & _).
         destruct Hi as [E|[E|[]]]; inversion E; subst; [lia|left; reflexivity].
     - intros cp2 [<-|[]]. rewrite Ecpi. assumption.
-    - intros Hkn. rewrite Hk2, Hk in Hkn. discriminate. }
+    - intros Hkn. rewrite Hk2, Hk in Hkn. discriminate.
+    - intros _ cp2 [<-|[]]. lia. }
   split; [|split].
   - apply cons_inv; [assumption|assumption|].
     intros x Hx. destruct (B5 x Hx) as (Hne & Hd). split; [exact Hne|exact Hd].
@@ -271,7 +275,7 @@ Proof.
   destruct (find_both _ _ _ _ _ Hm Ef Ep) as (Hcs & Eb & Hcp & Ei & Hs & (Hpi & Hbz & Hres & Hgo)).
   subst base idx.
   pose proof (unused_page_no_ghost cp Hpi Hgo Eu) as Eg.
-  pose proof Hs as (A1 & A2 & A3 & A4 & Hinv & Hndp & Hpg & Hpok & Hc256).
+  pose proof Hs as (A1 & A2 & A3 & A4 & Hinv & Hndp & Hpg & Hpok & Hc256 & Hhuge1).
   destruct (page_span _ _ Hs Hcp) as (Hi0 & c & Hsp).
   destruct (cs_st cs) as [sg qs] eqn:Est. cbn [fst] in *.
   assert (Hne0 : cp_idx cp <> 0) by lia.
@@ -313,7 +317,7 @@ Proof.
     assert (Hs' : seg_ok cs').
     { unfold seg_ok. rewrite Esz. cbn [cs' cs_base cs_st cs_pages].
       split; [assumption|]. split; [assumption|]. split; [assumption|]. split; [assumption|].
-      split; [assumption|]. split; [apply NoDup_kdel; assumption|]. split; [|split].
+      split; [assumption|]. split; [apply NoDup_kdel; assumption|]. split; [|split; [|split]].
       - intros i. rewrite In_map_key_kdel, Hpg. split.
         + intros ((Hi & ci & Hin) & Hne). split; [assumption|]. exists ci. apply Hus. split; [congruence|assumption].
         + intros (Hi & ci & Hin). apply Hus in Hin as (Hne & Hin). split; [split; [assumption|exists ci; assumption]|].
@@ -321,7 +325,8 @@ Proof.
           pose proof (used_span_pos (sg, qs) _ _ Hinv Hin). pose proof (used_span_pos (sg, qs) _ _ Hinv Hsp). lia.
       - intros cp2 Hcp2. apply In_kdel in Hcp2 as (Hcp2 & Hne).
         destruct (Hkeep cp2 Hcp2 Hne) as (c2 & _ & Eg2). rewrite Eg2. apply Hpok. assumption.
-      - intros _ i ci Hin. apply Hus in Hin as (_ & Hin). apply (Hc256 Ek _ _ Hin). }
+      - intros _ i ci Hin. apply Hus in Hin as (_ & Hin). apply (Hc256 Ek _ _ Hin).
+      - intros Hkh. rewrite Ek1 in Hkh. discriminate. }
     assert (Esb : forall x, In x (seg_blocks cs') <-> In x (seg_blocks cs)).
     { intros x. rewrite !In_seg_blocks. unfold cs' at 1; cbn [cs_pages]. split.
       - intros (cp2 & Hcp2 & Hx). apply In_kdel in Hcp2 as (Hcp2 & Hne). exists cp2. split; [assumption|].
